@@ -192,6 +192,29 @@ Proof.
   destruct (two63 <=? len); cbn [snd]; lia.
 Qed.
 
+(* count-driven handlers: no declared count makes them panic, and what they allocate is bounded by
+   the items that actually arrived *)
+Theorem read_items_never_panics count item avail : fst (fst (read_items false count item avail)) <> RdPanic.
+Proof. unfold read_items. cbn [fst]. destruct (count <=? avail / item); discriminate. Qed.
+
+Theorem read_items_alloc_bounded count item avail : 0 < item ->
+  snd (read_items false count item avail) * item <= avail /\
+  snd (read_items false count item avail) <= count.
+Proof.
+  intros Hi. unfold read_items. cbn [snd].
+  pose proof (N.mul_div_le avail item) as Hd. assert (item <> 0) as Hne by lia. specialize (Hd Hne).
+  split; [|lia].
+  assert (N.min count (avail / item) <= avail / item) as Hm by lia.
+  apply N.le_trans with (m := (avail / item) * item); [|lia].
+  apply N.mul_le_mono_r. exact Hm.
+Qed.
+
+(* ... whereas sizing the list by the declared count (seeded change C15d) panics on a 9-byte count *)
+Theorem read_items_presized_refuted :
+  fst (fst (read_items true 18446744073709551615 36 36)) = RdPanic /\
+  snd (read_items true 1000000000000 36 36) = 1000000000000.
+Proof. split; vm_compute; reflexivity. Qed.
+
 Theorem read_payload_as_found_refuted :
   fst (read_payload true two63 18446744073709551615 0) = RdPanic /\
   snd (read_payload true 1099511627776 18446744073709551615 20) = 1099511627776.
